@@ -52,6 +52,11 @@ Definition mut_ok (mut : option bool) (is_mutable : bool) : bool :=
 Definition bool_ok (v : option bool) (b : bool) : bool :=
   match v with None => true | Some x => Bool.eqb b x end.
 
+(* pointwise test of two lists, up to the shorter one (lengths are compared separately, as the code does) *)
+Definition all2 {A B} (f : A -> B -> bool) : list A -> list B -> bool :=
+  fix go (xs : list A) (ys : list B) {struct xs} : bool :=
+    match xs, ys with x :: xs', y :: ys' => f x y && go xs' ys' | _, _ => true end.
+
 (* every class's checkObject, as "does not raise Violation" *)
 Fixpoint checkObject (c : ctr) (o : obj) {struct c} : bool :=
   match c with
@@ -71,11 +76,7 @@ Fixpoint checkObject (c : ctr) (o : obj) {struct c} : bool :=
       match o with
       | OTuple l =>
           negb (scmp_eval tuple_len_cmp (zlen l) (zlen cs)) &&
-          (fix go (cs : list ctr) (l : list obj) {struct cs} : bool :=
-             match cs, l with
-             | c1 :: cs', x :: l' => checkObject c1 x && go cs' l'
-             | _, _ => true
-             end) cs l
+          all2 checkObject cs l
       | _ => false
       end
   | CDict kc vc mk =>
@@ -89,9 +90,7 @@ Fixpoint checkObject (c : ctr) (o : obj) {struct c} : bool :=
       | OFset l => mut_ok mut false && negb (over_max set_max_cmp mx (zlen l)) && forallb (checkObject ci) l
       | _ => false
       end
-  | CChoice cs =>
-      (fix any (cs : list ctr) : bool :=
-         match cs with [] => false | c1 :: cs' => checkObject c1 o || any cs' end) cs
+  | CChoice cs => existsb (fun c1 => checkObject c1 o) cs
   | COpt _ => true
   end.
 
@@ -133,9 +132,7 @@ Definition tv_ok (t : tv) : bool := match t with TOk => true | _ => false end.
 Fixpoint taste (c : ctr) (tb size : Z) {struct c} : tv :=
   match c with
   | CChoice cs =>
-      if (fix any (cs : list ctr) : bool :=
-            match cs with [] => false | c1 :: cs' => tv_ok (taste c1 tb size) || any cs' end) cs
-      then TOk else TViol
+      if existsb (fun c1 => tv_ok (taste c1 tb size)) cs then TOk else TViol
   | _ => checkToken_base (taster_of c) (strict_of c) tb size
   end.
 
@@ -252,6 +249,23 @@ Definition recv_bool (v : option bool) (kids : list wobj) : rv :=
   | _ => RAbort
   end.
 
+(* a container Unslicer receiving its children: f is the receiver of one child (recvw below) *)
+Definition kids_with (f : option ctr -> wobj -> rv) (ch : child) : list wobj -> nat -> krv :=
+  fix go (ks : list wobj) (i : nat) {struct ks} : krv :=
+    match ks with
+    | [] => KOk []
+    | k :: ks' =>
+        match child_slot ch i with
+        | None => KViol                                   (* "the list/tuple/dict/set is full" *)
+        | Some occ =>
+            match f occ k with
+            | RDeliver x => match go ks' (S i) with KOk l => KOk (x :: l) | e => e end
+            | RViol => KViol
+            | RAbort => KAbort
+            end
+        end
+    end.
+
 (* what the receiver does with one object arriving in a slot governed by oc *)
 Fixpoint recvw (oc : option ctr) (w : wobj) {struct w} : rv :=
   match w with
@@ -279,20 +293,7 @@ Fixpoint recvw (oc : option ctr) (w : wobj) {struct w} : rv :=
                    | ChBool v => recv_bool v kids
                    | ChNone => match kids with [] => RDeliver ONone | _ => RAbort end
                    | _ =>
-                       match (fix go (ks : list wobj) (i : nat) {struct ks} : krv :=
-                                match ks with
-                                | [] => KOk []
-                                | k :: ks' =>
-                                    match child_slot ch i with
-                                    | None => KViol
-                                    | Some occ =>
-                                        match recvw occ k with
-                                        | RDeliver x => match go ks' (S i) with KOk l => KOk (x :: l) | e => e end
-                                        | RViol => KViol
-                                        | RAbort => KAbort
-                                        end
-                                    end
-                                end) kids O with
+                       match kids_with recvw ch kids O with
                        | KOk l => RDeliver (build ch l)
                        | KViol => RViol
                        | KAbort => RAbort
@@ -302,21 +303,7 @@ Fixpoint recvw (oc : option ctr) (w : wobj) {struct w} : rv :=
       end
   end.
 
-(* the same loop, as a top-level function (used to state lemmas about it) *)
-Fixpoint recv_kids (ch : child) (ks : list wobj) (i : nat) {struct ks} : krv :=
-  match ks with
-  | [] => KOk []
-  | k :: ks' =>
-      match child_slot ch i with
-      | None => KViol
-      | Some occ =>
-          match recvw occ k with
-          | RDeliver x => match recv_kids ch ks' (S i) with KOk l => KOk (x :: l) | e => e end
-          | RViol => KViol
-          | RAbort => KAbort
-          end
-      end
-  end.
+Definition recv_kids : child -> list wobj -> nat -> krv := kids_with recvw.
 
 (* ---- the honest sender.  Integers: the translated split of Banana.sendToken (int_token). *)
 Fixpoint interleave {A} (a b : list A) : list A :=
@@ -477,18 +464,30 @@ Fixpoint c12_guard (c : ctr) (o : obj) {struct c} : bool :=
   | CAny => any_int_ok o
   | COpt _ => is_token_or_none o && any_int_ok o
   | CChoice cs =>
-      is_token_or_none o &&
-      (fix any (cs : list ctr) : bool :=
-         match cs with [] => false | c1 :: cs' => (checkObject c1 o && c12_guard c1 o) || any cs' end) cs
+      is_token_or_none o && existsb (fun c1 => checkObject c1 o && c12_guard c1 o) cs
   | CList ci _ _ => match o with OList l => forallb (c12_guard ci) l | _ => true end
   | CTuple cs =>
       match o with
-      | OTuple l => (fix go (cs : list ctr) (l : list obj) {struct cs} : bool :=
-                       match cs, l with c1 :: cs', x :: l' => c12_guard c1 x && go cs' l' | _, _ => true end) cs l
+      | OTuple l => all2 c12_guard cs l
       | _ => true
       end
-  | CDict k v _ => match o with ODict ks vs => forallb (c12_guard k) ks && forallb (c12_guard v) vs && (List.length ks =? List.length vs)%nat | _ => true end
+  | CDict k v _ => match o with ODict ks vs => forallb (c12_guard k) ks && forallb (c12_guard v) vs | _ => true end
   | CSet ci _ _ => match o with OSet l | OFset l => forallb (c12_guard ci) l | _ => true end
+  | _ => true
+  end.
+
+(* a Python dict has as many values as keys; a wire integer token has one of the four integer type bytes *)
+Fixpoint owf (o : obj) : bool :=
+  match o with
+  | OList l | OTuple l | OSet l | OFset l => forallb owf l
+  | ODict ks vs => (List.length ks =? List.length vs)%nat && forallb owf ks && forallb owf vs
+  | _ => true
+  end.
+
+Fixpoint wwf (w : wobj) : bool :=
+  match w with
+  | WInt tb _ _ => (tb =? tok_INT) || (tb =? tok_NEG) || (tb =? tok_LONGINT) || (tb =? tok_LONGNEG)
+  | WOpen _ kids => forallb wwf kids
   | _ => true
   end.
 
@@ -501,6 +500,5 @@ Fixpoint complete (c : ctr) : bool :=
   | CBytes None mn => mn <=? 0
   | CList ci None mn => (mn <=? 0) && complete ci
   | CSet ci None None => complete ci
-  | CDict k v None => complete k && complete v
   | _ => false
   end.
